@@ -100,7 +100,7 @@ PROPS['C16'] = {
                 # positive control: with a memzero that only logs, residue MUST be found, otherwise the scanner is blind
                 'control.hits.polyseed_encode': 6, 'control.hits.polyseed_decode': 6, 'control.hits.polyseed_decode_explicit': 6, 'control.hits.polyseed_crypt': 6,
                 'control.free_notzero': 6,
-                'calls.polyseed_decode.OK': 60, 'calls.polyseed_decode.MULT_LANG': 6, 'calls.polyseed_decode.UNSUPPORTED': 60, 'calls.polyseed_decode.MEMORY': 60,
+                'calls.polyseed_decode.OK': 60, 'calls.polyseed_decode.OVERLONG': 30, 'calls.polyseed_decode_explicit.OVERLONG': 30, 'calls.polyseed_decode.MULT_LANG': 6, 'calls.polyseed_decode.UNSUPPORTED': 60, 'calls.polyseed_decode.MEMORY': 60,
                 'calls.polyseed_decode_explicit.LANG': 60, 'calls.polyseed_load.UNSUPPORTED': 6, 'calls.polyseed_create.OK': 6, 'calls.polyseed_crypt.OK': 60,
                 'calls.polyseed_encode.OK': 60, 'calls.polyseed_free.OK': 6, 'calls.polyseed_keygen.OK': 6},
     'assumptions': ['register contents and memory owned by the injected dependencies are out of scope', 'observed for gcc 12 -O0/-O1/-O2/-O3/-Os and clang 14 -O2 on x86-64 only'],
